@@ -20,9 +20,11 @@ PROPERTY = "C19"
 LEVEL = "exploration"
 RULE = (
     "cases = builder programs: 1-3 callables synthesised from generated signatures (0-4 parameters, positional-or-keyword / "
-    "keyword-only, with/without defaults, annotations from {absent,int,str,float,bytes,list,dict,bool}), 1-4 tasks each with 0-2 "
+    "keyword-only, with/without defaults, annotations from {absent,int,str,float,bytes,list,dict,bool,object}, bool/int/object drawn more often: the names in a strict subclass relation), 1-4 tasks each with 0-2 "
     "with_values(*args, **kwargs) calls (values of matching or non-matching type), then 1-10 with_node/with_edge/build steps whose "
-    "edge endpoints are existing or dangling tasks/outputs/parameters, positional or keyword; non-trivial = the program has >=1 edge "
+    "edge endpoints are existing or dangling tasks/outputs/parameters, positional or keyword; a third of the programs are instead "
+    "constructive and well formed (every node exists, every edge runs from a default output into a real parameter, no static values), "
+    "so that acceptance depends on the declared types alone; non-trivial = the program has >=1 edge "
     "and >=1 with_values call with positional arguments or a keyword, and build() is reached with >=2 nodes; distinct = fingerprint "
     "of the program"
 )
